@@ -209,6 +209,12 @@ fn parse_case(line: &str) -> Option<Case> {
             c.steps.push(st);
         }
     }
+    // an unparsable item (endless head, non-request) may only be the last one
+    if let Some(k) = c.items.iter().position(|i| matches!(i, Item::Junk { .. } | Item::Bad)) {
+        if k + 1 != c.items.len() {
+            return None;
+        }
+    }
     Some(c)
 }
 
@@ -294,6 +300,24 @@ impl Lay {
     }
 }
 
+/// `<method> /<path pad> HTTP/1.1\r\n[x: <pad>\r\n]<headers>\r\n` with exactly `pad` padding bytes:
+/// up to 4 in the path, more in a header value (`http::Uri` refuses paths beyond 65 534 bytes)
+fn push_head(buf: &mut Vec<u8>, method: &str, pad: usize, headers: &str) {
+    buf.extend_from_slice(method.as_bytes());
+    buf.extend_from_slice(b" /");
+    if pad < 5 {
+        buf.extend(std::iter::repeat(b'a').take(pad));
+    }
+    buf.extend_from_slice(b" HTTP/1.1\r\n");
+    if pad >= 5 {
+        buf.extend_from_slice(b"x: ");
+        buf.extend(std::iter::repeat(b'a').take(pad - 5));
+        buf.extend_from_slice(b"\r\n");
+    }
+    buf.extend_from_slice(headers.as_bytes());
+    buf.extend_from_slice(b"\r\n");
+}
+
 fn build_input(items: &[Item]) -> Option<(Vec<u8>, Vec<Lay>)> {
     let mut buf: Vec<u8> = Vec::new();
     let mut lays = Vec::new();
@@ -304,18 +328,15 @@ fn build_input(items: &[Item]) -> Option<(Vec<u8>, Vec<Lay>)> {
                 if h < GET_BASE {
                     return None;
                 }
-                buf.extend_from_slice(b"GET /");
-                buf.extend(std::iter::repeat(b'a').take(h - GET_BASE));
-                buf.extend_from_slice(b" HTTP/1.1\r\n\r\n");
+                push_head(&mut buf, "GET", h - GET_BASE, "");
+                debug_assert_eq!(buf.len() - start, h);
                 lays.push(Lay { start, head: h, end: buf.len(), body: Body::None, unparsable: false });
             }
             Item::Len { h, n } => {
                 if h < len_base(n) || n == 0 {
                     return None;
                 }
-                buf.extend_from_slice(b"POST /");
-                buf.extend(std::iter::repeat(b'a').take(h - len_base(n)));
-                buf.extend_from_slice(format!(" HTTP/1.1\r\ncontent-length: {}\r\n\r\n", n).as_bytes());
+                push_head(&mut buf, "POST", h - len_base(n), &format!("content-length: {}\r\n", n));
                 debug_assert_eq!(buf.len() - start, h);
                 buf.extend(std::iter::repeat(b'd').take(n));
                 lays.push(Lay { start, head: h, end: buf.len(), body: Body::Len(n), unparsable: false });
@@ -324,9 +345,7 @@ fn build_input(items: &[Item]) -> Option<(Vec<u8>, Vec<Lay>)> {
                 if h < CHUNKED_BASE || c == 0 || m == 0 {
                     return None;
                 }
-                buf.extend_from_slice(b"POST /");
-                buf.extend(std::iter::repeat(b'a').take(h - CHUNKED_BASE));
-                buf.extend_from_slice(b" HTTP/1.1\r\ntransfer-encoding: chunked\r\n\r\n");
+                push_head(&mut buf, "POST", h - CHUNKED_BASE, "transfer-encoding: chunked\r\n");
                 debug_assert_eq!(buf.len() - start, h);
                 for _ in 0..m {
                     buf.extend_from_slice(format!("{:x}\r\n", c).as_bytes());
@@ -958,6 +977,17 @@ fn run(line: &str) -> CaseResult {
         return CaseResult { output: "bad-case".into(), fail: None, nontrivial: false, tags: vec!["bad-case".into()] };
     };
     let mut out = String::new();
+    if case.seg == 0 {
+        // a socket that fills whatever BytesMut offers: how much that is depends on the allocator
+        // (capacity doubling), which the model does not describe; oracle only
+        let mut res = CaseResult::ok("greedy".into());
+        res.tags.push("greedy".into());
+        res.nontrivial = o.sh.borrow().calls > 0;
+        if let Some((sig, d)) = oracle(&case, &o) {
+            res = res.fail(&sig, d);
+        }
+        return res;
+    }
     for sn in &o.snaps {
         out.push_str(&format!("{}:{}:{}:{}:{} ", sn.t, sn.c, sn.d, sn.p, sn.a));
     }
